@@ -116,7 +116,7 @@ def requirements(tier):
         "redump-attempted": 3000 * k, "second-gen-evaluated": 800 * k,
         "fmt-by-arg": 2000 * k, "fmt-by-config:xml": 500 * k, "fmt-by-config:kvn": 500 * k, "fmt-by-default": 100 * k,
         "fmt-arg-over-config": 500 * k,
-        "opm:cls:StateVector": 200 * k, "opm:cls:Orbit": 200 * k,
+        "opm:cls:StateVector": 200 * k, "opm:cls:Orbit": 200 * k, "opm:cov-frame-history": 30 * k,
         "opm:nman:0": 100 * k, "opm:nman:1": 100 * k, "opm:nman:2": 100 * k, "opm:nman:3": 100 * k,
         "man:impulsive": 200 * k, "man:continuous": 200 * k,
         "man:frame:None": 100 * k, "man:frame:QSW": 100 * k, "man:frame:TNW": 100 * k,
@@ -214,7 +214,10 @@ def gen_cov(rng, kind, state_frame):
         frame = rng.choice([f for f in FRAMES if f != state_frame])
     # how the frame is handed to Cov(): a Frame object (what works today) or its name (documented type)
     as_str = kind in ("QSW", "TNW") or rng.random() < 0.25
-    return {"kind": kind, "frame": frame, "as_str": as_str, "values": gen_cov_values(rng)}
+    out = {"kind": kind, "frame": frame, "as_str": as_str, "values": gen_cov_values(rng)}
+    if kind == "other" and state_frame in FRAMES and rng.random() < 0.4:
+        out["history"] = "state-moved-after-attachment"  # OPM only (see build_opm)
+    return out
 
 
 COMMENTS = ["apogee maneuver", "inclination correction", "burn 2 of 3", "station keeping E/W", "test", "Hohmann, first impulse", "dv_1 (nominal)"]
@@ -316,6 +319,7 @@ def gen_segment(rng, frame, scale, n, ncov_class, method, order):
     cov_kind = rng.choice(COV_KINDS[1:])
     for i in which:
         points[i]["cov"] = gen_cov(rng, cov_kind if rng.random() < 0.8 else rng.choice(COV_KINDS[1:]), frame)
+        points[i]["cov"].pop("history", None)
     form = "cartesian" if (rng.random() < 0.9 or frame not in FRAMES) else rng.choice(["keplerian", "spherical"])
     seg = {"frame": frame, "scale": scale, "n": n, "ncov": len(which), "ncov_class": ncov_class, "method": method, "order": order,
            "form": form, "epoch_class": ecls, "points": points}
@@ -411,6 +415,8 @@ def gen_omm(rng, k):
         })
         spec.update(gen_naming(rng))
     spec["cov"] = gen_cov(rng, cov_kind, "TEME")
+    if spec["cov"]:
+        spec["cov"].pop("history", None)  # the frame history is an OPM scenario (build_opm)
     return spec
 
 
@@ -501,16 +507,28 @@ def build_opm(spec):
     if spec["name_via"] == "attr":
         kw = {"name": spec["name"], "cospar_id": spec["cospar_id"]}
     coords = list(spec["r"]) + list(spec["v"])
+    frame0 = spec["frame"]
+    history = spec["cov"] is not None and spec["cov"].get("history") == "state-moved-after-attachment"
+    if history:
+        # history: the covariance is attached while the state is still in ANOTHER frame (the one the covariance is given
+        # in); the state then moves to the frame of the message (the covariance follows it) and the covariance is brought
+        # back.  End state: as specified -- state in spec["frame"], covariance in its own frame -- but the private copy of
+        # the state held by the covariance is still in the frame of the attachment
+        frame0 = spec["cov"]["frame"]
+        coords = [float(t) for t in StateVector(coords, date, "cartesian", spec["frame"]).copy(frame=frame0)]
     if spec["cls"] == "Orbit":
-        x = Orbit(coords, date, "cartesian", spec["frame"], spec["propagator"], **kw)
+        x = Orbit(coords, date, "cartesian", frame0, spec["propagator"], **kw)
     else:
-        x = StateVector(coords, date, "cartesian", spec["frame"], **kw)
+        x = StateVector(coords, date, "cartesian", frame0, **kw)
     if spec["form"] != "cartesian":
         x.form = spec["form"]
     if spec["mans"]:
         x.maneuvers = [mk_man(m, spec["scale"]) for m in spec["mans"]]
     if spec["cov"] is not None:
         x.cov = mk_cov(x, spec["cov"])
+        if history:
+            x.frame = spec["frame"]
+            x.cov.frame = frame0
     if spec["user"]:
         x.ccsds_user_defined = dict(spec["user"])
     return x, dump_kwargs(spec, spec)
@@ -697,6 +715,12 @@ def ref_cov(cspec, got):
         _need(got is None, "cov present on the original although none was specified")
         return None
     _need(got is not None and got["frame"] == cspec["frame"], "original cov frame")
+    if cspec.get("history"):
+        # rotated there and back: the object's own values are the reference (they equal the generator's to round-off)
+        _need(np.allclose(got["values"], np.array(cspec["values"]), rtol=1e-9, atol=1e-12), "original cov values (after the frame history)")
+        # (a rotated matrix is symmetric to round-off only; a CCSDS message carries the lower triangle CX_X, CY_X, CY_Y ...)
+        L = np.tril(np.array(got["values"], dtype=float))
+        return {"frame": cspec["frame"], "frame_is_str": cspec["as_str"], "values": L + L.T - np.diag(np.diag(L))}
     _need(np.array_equal(got["values"], np.array(cspec["values"])), "original cov values")
     return {"frame": cspec["frame"], "frame_is_str": cspec["as_str"], "values": np.array(cspec["values"], dtype=float)}
 
@@ -1184,6 +1208,8 @@ def run_case(ctx, job, idx, rng, st):
         spec = GEN[mtype](rng, k)
     cls = classes_of(spec)
     count_classes(ctx, spec)
+    if mtype == "opm" and spec.get("cov") and spec["cov"].get("history"):
+        ctx.count("opm:cov-frame-history")
     wbase = {"spec": summarize(spec), "cfg_fmt": st["cfg_fmt"]}
 
     # reference (before anything is dumped)
